@@ -111,6 +111,13 @@ def isNudged (tiny : α) : Shape α → α → Bool
   | .lt b, v => ltb ((b - tiny) - v) tiny
   | .le b, v => ltb (Scalar.abs (v - b)) tiny
 
+/-- `checkRoom` then `new IntervalTransformedParameter` (cpp, cases 1-4; `fix:` "interval too narrow
+to be reparametrized" of findings/C11.json): when the corrected value is not strictly between the
+corrected bounds — a finite interval narrower than 2 or 3 `tiny` — `init_` raises a
+ConstraintException (`none`) instead of building a transformed parameter whose value is NaN -/
+def mkIT (pi cv lo hi : α) : Option (TP α) :=
+  if ltb lo cv && ltb cv hi then some (.i (IT.new pi cv lo hi one true)) else none
+
 /-- `init_` for one parameter (cpp:13-168): which transform, with which corrected bounds, from
 which corrected value.
 `none` = the constructor of the transformed parameter raised a ConstraintException. -/
@@ -118,10 +125,10 @@ def initOne (pi tiny : α) (shape : Shape α) (value : α) : Option (TP α) :=
   let cv := corrected tiny shape value
   match shape with
   | .none => some (TP.placebo cv)
-  | .cc a b => some (.i (IT.new pi cv a b one true))                        -- case 1: [a,b]
-  | .oo a b => some (.i (IT.new pi cv (a + tiny) (b - tiny) one true))      -- case 2: ]a,b[
-  | .co a b => some (.i (IT.new pi cv a (b - tiny) one true))               -- case 3: [a,b[
-  | .oc a b => some (.i (IT.new pi cv (a + tiny) b one true))               -- case 4: ]a,b]
+  | .cc a b => mkIT pi cv a b                                               -- case 1: [a,b]
+  | .oo a b => mkIT pi cv (a + tiny) (b - tiny)                             -- case 2: ]a,b[
+  | .co a b => mkIT pi cv a (b - tiny)                                      -- case 3: [a,b[
+  | .oc a b => mkIT pi cv (a + tiny) b                                      -- case 4: ]a,b]
   | .gt a => (RT.new cv (a + tiny) true one).map .r                         -- case 5: ]a,+inf[
   | .ge a => (RT.new cv a true one).map .r                                  -- case 6: [a,+inf[
   | .lt b => (RT.new cv (b - tiny) false one).map .r                        -- case 7: ]-inf,b[
